@@ -376,6 +376,19 @@ func main() {
 		}(i)
 	}
 	wg.Wait()
+	// goimports runs the go command; under load that subprocess can time out ("exec: WaitDelay
+	// expired"). That is the environment, not the generator: such cases are re-run alone.
+	flakes := 0
+	for i := range ps {
+		for try := 0; try < 3 && outs[i].kind == "goformat" && strings.Contains(outs[i].msg, "exec:"); try++ {
+			flakes++
+			outs[i] = generate(ps[i], sc.Path("pk/"+ps[i].ID))
+		}
+		if outs[i].kind == "goformat" && strings.Contains(outs[i].msg, "exec:") {
+			vf.Fatal("goimports cannot run its subprocess even when run alone: %s", outs[i].msg)
+		}
+	}
+	r.Set("goimports_subprocess_timeouts_retried", flakes)
 	byID := map[string]int{}
 	counts := map[string]map[string]int{}
 	for i, p := range ps {
